@@ -664,9 +664,17 @@ def _check_shapes(prog: Program, res: Result):
     ifs = [n for n in fi.node.body if isinstance(n, ast.If)]
     ok = False
     if len(ifs) == 1:
-        t = ast.unparse(ifs[0].test).replace(" ", "")
+        from ..paths import conj_is
+
+        e_ = Engine(prog, fi, Hooks())
+        s_ = State()
+        for p_ in fi.params():
+            s_.env[p_] = Rat.atom(p_)
+        c_ = e_.cond(ifs[0].test, s_)
+        two = Rat.const(2)
+        both_gt2 = conj_is(c_, [(Rat.atom("num_bh_x") - two, "+"), (Rat.atom("num_bh_y") - two, "+")])
         call = [c for c in ast.walk(ast.Module(body=ifs[0].orelse, type_ignores=[])) if isinstance(c, ast.Call) and attr_chain(c.func) == "rectangle"]
-        ok = t in ("num_bh_x>2andnum_bh_y>2", "num_bh_y>2andnum_bh_x>2") and len(call) == 1 and [ast.unparse(a) for a in call[0].args] == ["num_bh_x", "num_bh_y", "spacing_x", "spacing_y"]
+        ok = both_gt2 and len(call) == 1 and [ast.unparse(a) for a in call[0].args] == ["num_bh_x", "num_bh_y", "spacing_x", "spacing_y"]
     res.ob("R03.5", "open_rectangle(): full rectangle when a side has fewer than three rows, perimeter otherwise", ok, prog.loc(fi, fi.node))
     if not ok:
         res.violation("R03.5", "open-rectangle-guard", prog.loc(fi, fi.node), q, "open_rectangle() no longer switches between perimeter (both sides > 2 rows) and the full rectangle")
@@ -701,7 +709,15 @@ def _check_shapes(prog: Program, res: Result):
                       "zoned_rectangle() no longer combines open_rectangle(n_x, n_y, b_x, b_y) with rectangle(n_ix, n_it, bix, biy, origin=(bix, biy)), bix = (n_x-1) b_x / (n_ix+1): interior boreholes can coincide with the perimeter or leave the land")
     guards = [n for n in fi.node.body if isinstance(n, ast.If) and any(isinstance(b, ast.Raise) for b in n.body)]
     gt = sorted(ast.unparse(g.test).replace(" ", "").replace("(", "").replace(")", "") for g in guards)
-    ok = gt == ["n_it>n_y-2", "n_ix>n_x-2"]
+    from ..paths import cmp_is
+
+    e_ = Engine(prog, fi, Hooks())
+    s_ = State()
+    for p_ in fi.params():
+        s_.env[p_] = Rat.atom(p_)
+    cs_ = [e_.cond(g.test, s_) for g in guards]
+    wants = [(Rat.atom("n_ix") - Rat.atom("n_x") + Rat.const(2), "+"), (Rat.atom("n_it") - Rat.atom("n_y") + Rat.const(2), "+")]
+    ok = len(cs_) == 2 and all(any(cmp_is(c_, w[0], w[1]) for c_ in cs_) for w in wants)
     res.ob("R03.5", f"zoned_rectangle(): refuses more interior rows than fit strictly inside the perimeter ({gt})", ok, prog.loc(fi, fi.node))
     if not ok:
         res.violation("R03.5", f"zoned-guards|{gt}", prog.loc(fi, fi.node), q, f"the interior-row guards of zoned_rectangle are {gt} instead of n_ix > n_x - 2 and n_it > n_y - 2")
